@@ -114,6 +114,12 @@ func (bs *BatchCacheStub) insertCacheCheckKeys(
 		return
 	}
 
+	// an answer without an address has nothing to derive the two entries from (AddrString would
+	// panic on it, and with it the whole request whose pre-fetch brought the answer in)
+	if len(addrMsg.GetAddress().GetAddress().GetAddress()) == 0 {
+		return
+	}
+
 	addr := addrMsg.GetAddress().GetAddress().AddrString()
 
 	address, err := pb.Marshal(addrMsg.GetAddress().GetAddress())
